@@ -336,7 +336,7 @@ _FMT = _string.Formatter()
 def zx_format(fmt, a, k):
     if isinstance(fmt, SStr):
         if not fmt.is_concrete():
-            raise ZXError('symbolic format string')
+            return _format_symbolic_template(fmt, a, k)
         fmt = ''.join(chr(c) for c in fmt.els)
     pieces = []
     auto = 0
@@ -375,6 +375,33 @@ def zx_format(fmt, a, k):
                     raise ZXError('format of container with symbolic values')
                 pieces.append(format(v, spec))
     return _cat(pieces)
+
+
+def _format_symbolic_template(fmt, a, k):
+    """str.format on a template that contains symbolic characters (text of the peer used as a format string).  Case split: if none of the symbolic characters
+    is a brace they are literal text - the template is formatted with private-use sentinels in their place, which are put back afterwards; otherwise the
+    template is concretised (finite case split) and formatted for real, which may raise ValueError / KeyError / IndexError like the real str.format."""
+    sym = [i for i, c in enumerate(fmt.els) if not isinstance(c, int)]
+    has_brace = s_or(*[mkbool(z3.Or(fmt.els[i] == 123, fmt.els[i] == 125)) for i in sym])
+    if bool(has_brace):
+        return zx_format(concretize_str(fmt), a, k)
+    chars = []
+    back = {}
+    for i, c in enumerate(fmt.els):
+        if isinstance(c, int):
+            chars.append(chr(c))
+        else:
+            sent = chr(0xF0000 + len(back))
+            back[sent] = c
+            chars.append(sent)
+    res = zx_format(''.join(chars), a, k)
+    els = []
+    for c in (res.els if isinstance(res, SStr) else [ord(x) for x in res]):
+        if isinstance(c, int) and chr(c) in back:
+            els.append(back[chr(c)])
+        else:
+            els.append(c)
+    return mkstr(els)
 
 
 def set_order(x):
